@@ -34,7 +34,7 @@ ASSUMPTIONS = [
 BOUNDS = {
     "quick": {"gates": "n<=4, every position", "measure/reset": "n<=2 all positions, determinism in {0,1,probabilistic}",
               "insert/remove/tensor": "n<=2 (n1+n2<=3)"},
-    "thorough": {"gates": "n<=8 every position, n=12 and 16 selected positions", "measure/reset": "n<=3", "insert/remove/tensor": "n<=3"},
+    "thorough": {"gates": "n<=8 every position, n=12 and 16 selected positions", "measure/reset": "n<=3 complete; n=4 budgeted (15 min per job, undecided XOR-heavy paths count as unexplored)", "insert/remove/tensor": "n<=3"},
 }
 OUTSIDE = ("n above the bounds (hundreds of qubits, n=200 random walks); Stabilizer.apply_x_measurement (calls a "
            "function that does not exist); performance")
@@ -566,6 +566,15 @@ def plan(tier):
             h.parallel = True
             h.partial_ok = True
             jobs.append((h, {"time_budget": 40, "chunk_paths": 4, "chunk_s": 8.0}))
+    if not q:
+        # n = 4 measurement family: most paths are decided in seconds, some symplectic (XOR-heavy) obligations defeat
+        # CDCL; budgeted exploration with a short solver time-out, undecided paths count as unexplored
+        for h in (MeasureZ(n=4, q=0, det=1), MeasureZ(n=4, q=3, det="probabilistic"), Remove(n=4, q=1, det=0, via="remove_qubit"),
+                  Reset(n=4, q=2, basis="Z", intended=1, det=1)):
+            h.parallel = True
+            h.partial_ok = True
+            h.path_timeout_s = 90
+            jobs.append((h, {"time_budget": 900, "chunk_paths": 2, "chunk_s": 30.0, "solver_timeout_ms": 20000}))
     for n in ([2] if q else [2, 3]):
         for a, b in itertools.combinations(range(n), 2):
             jobs.append((Swap(n=n, pos=[a, b]), {}))
